@@ -290,6 +290,27 @@ func runC15(c *Ctx, wi int, seed uint64) {
 	if wi == 0 {
 		c.Sample(map[string]interface{}{"world": wi, "n": n, "board_len": w.Board.Len(), "retired_operations_node0": len(retired[0])})
 	}
+	// anyone may deliver a genuine proposal again (C10's open finding); the operations it re-derives are
+	// the retired ones: their old results must still be refused, nothing may be posted
+	for _, m := range BoardMsgs(w, ce.Round, EvSigningStart) {
+		_ = w.Board.Send(m)
+	}
+	for _, nd := range w.Nodes {
+		for int(nd.Offset()) < w.Board.Len() {
+			if _, err := nd.PollStep(0); err != nil {
+				break
+			}
+		}
+	}
+	for _, nd := range w.Nodes {
+		for _, old := range retired[nd.Idx] {
+			if string(old.Type) != OpSigning {
+				continue
+			}
+			submitAndJudge(c, w, nd, c15Sub{"id:retired-operation-resubmitted-after-proposal-replay", cloneOp(old), "reject"}, wit)
+			c.Distinct(string(old.Type) + "|retired-after-replay")
+		}
+	}
 	// a reinitialisation of the round on fresh nodes: the finish request (operation_processed_successfully,
 	// no board messages) goes through the same adversarial operator
 	if wi%2 == 0 {
